@@ -50,15 +50,18 @@ var (
 	}
 	// local buffer size limits: production default; 48 bytes = the second or third
 	// buffered packet does not fit any more (v4 items take 21, v6 items 45 bytes);
-	// thorough also 24 bytes = the first (v6) or second buffered packet does not fit
-	c21Limits = []int{0, 48, 24}
+	// thorough also 24 bytes = the first (v6) or second buffered packet does not fit;
+	// negative = initial buffer of that many bytes that may GROW up to the production
+	// limit: the second / third (first / second) buffered packet makes the buffer grow
+	// while it holds packets
+	c21Limits = []int{0, 48, -48, 24, -24}
 )
 
 func c21NLimits(tier string) int {
 	if tier == "thorough" {
-		return 3
+		return 5
 	}
-	return 2
+	return 3
 }
 
 type c21Req struct {
@@ -147,6 +150,8 @@ func c21Body(x *explore.Ctx, kinds []string, pkts []mcPkt, limit int, overlap bo
 	if limit > 0 {
 		defer capture.VerifSetInitialBufferSize(capture.VerifSetInitialBufferSize(limit))
 		sizeLimit = limit
+	} else if limit < 0 {
+		defer capture.VerifSetInitialBufferSize(capture.VerifSetInitialBufferSize(-limit))
 	}
 	opts = append(opts, capture.WithLocalBuffers(nbuf, sizeLimit))
 	mgr := capture.NewManager(wo, opts...)
@@ -589,10 +594,10 @@ func popcount(m int) (n int) {
 func init() {
 	register("C21", &explore.Scenario{
 		ID: "C21", Name: "three-point lock: packet arrival x write-out / status / live-query pauses, all orders", Level: "model_checking",
-		Rule:  "cases = request pair (writeout|status|live)^2, run one after the other, x 3 packet sequences (mixed IPv4/IPv6, both directions, distinct sizes, one with a non-first fragment; 3 packets quick, 4 thorough) x local buffer limit {default, 48 bytes = overflow at the 2nd/3rd buffered packet, thorough also 24 bytes = at the 1st/2nd}; thorough adds the pairs (live,writeout) (live,status) (live,live) (writeout,live) with TWO local buffers where the second request may start while the first pause is on (3 packets); each overlapping pair is split by its first event choice, encoded in the case index to keep cases of similar size (digits that name no enabled event give void cases). Per case ALL orders of the events {next packet arrives, parked poll sees the pending unblock, release a requester from Unblock / Stats / just-locked (live), start next request} with the bubble run to quiescence after each; state = (packets delivered, ring, packets held back in the local buffer, unblock pending, poll parked, lock/unlock requested, flow-log hash, request phases, parked seams, write-outs); non-trivial = schedules in which packets were held back in the local buffer, distinct by (requests, maximum held back, overflows, stale unblock seen) and by the set of packets lost to a reported overflow",
+		Rule:  "cases = request pair (writeout|status|live)^2, run one after the other, x 3 packet sequences (mixed IPv4/IPv6, both directions, distinct sizes, one with a non-first fragment; 3 packets quick, 4 thorough) x local buffer {production size and limit; limit 48 bytes = overflow at the 2nd/3rd buffered packet; initial size 48 bytes growing up to the production limit = growth at the 2nd/3rd buffered packet while the buffer holds packets; thorough also 24 bytes (limit / initial size) = at the 1st/2nd}; thorough adds the pairs (live,writeout) (live,status) (live,live) (writeout,live) with TWO local buffers where the second request may start while the first pause is on (3 packets); each overlapping pair is split by its first event choice, encoded in the case index to keep cases of similar size (digits that name no enabled event give void cases). Per case ALL orders of the events {next packet arrives, parked poll sees the pending unblock, release a requester from Unblock / Stats / just-locked (live), start next request} with the bubble run to quiescence after each; state = (packets delivered, ring, packets held back in the local buffer, unblock pending, poll parked, lock/unlock requested, flow-log hash, request phases, parked seams, write-outs); non-trivial = schedules in which packets were held back in the local buffer, distinct by (requests, maximum held back, overflows, stale unblock seen) and by the set of packets lost to a reported overflow",
 		Cases: c21Cases,
 		Bound: func(string) int { return 0 },
-		Run:   c21Run, Setup: mcSetup,
+		Run:   c21Run, Setup: mcSetup, PanicSig: "panic",
 		Assumptions: []string{
 			"source model = slimcap afring as observable through capture.SourceZeroCopy: ring packets first, unblocks coalesce, zero-copy slices invalidated by the next call",
 			"goroutine interleavings inside one seam-to-seam segment are not enumerated (GOMAXPROCS=1, run to quiescence)",
